@@ -345,6 +345,24 @@ def sites(fn, facts=None):
                     for z, zanc in with_parents(i1):
                         if z.get("k") == "MethodCall" and z["name"] == "is_standard_layout" and not any(a_.get("k") == "Unary" and a_["op"] == "!" for a_ in zanc):
                             flags[y["pat"]["local"]] = root_of(z["recv"])
+        # a stride test bound to a local (`let packed = strides[0] == b && (..)`), possibly through `let strides = x.strides();`:
+        # a guard that mentions it is a layout test this rule cannot evaluate
+        stride_locals = set()
+        grew_ = True
+        while grew_:
+            grew_ = False
+            for y in walk(fn["body"]):
+                if y.get("k") == "LetStmt" and y.get("init") is not None and y["pat"].get("k") == "Bind" and y["pat"]["local"] not in stride_locals:
+                    if any((z.get("k") == "MethodCall" and z["name"] in ("strides", "stride_of") and root_of(z["recv"]) == root) or (z.get("k") == "Path" and z.get("local") in stride_locals) for z in walk(y["init"])):
+                        stride_locals.add(y["pat"]["local"])
+                        grew_ = True
+        if anc and anc[-1].get("k") == "Match" and anc[-1].get("src", "Normal") == "Normal" and anc[-1]["scrut"] is n:
+            for a_ in anc[-1]["arms"]:
+                if a_.get("guard") is not None and any(z.get("k") == "Path" and z.get("local") in stride_locals for z in walk(a_["guard"])):
+                    unknown_guard = True
+        for a in anc:
+            if a.get("k") == "If" and any(z.get("k") == "Path" and z.get("local") in stride_locals for z in walk(a["c"])):
+                unknown_guard = True
         # `match x.as_slice_memory_order_mut() { Some(flat) if x.is_standard_layout() && .. => .., _ => <fallback> }`: the arm
         # that receives the buffer is taken only under the layout test
         if anc and anc[-1].get("k") == "Match" and anc[-1].get("src", "Normal") == "Normal" and anc[-1]["scrut"] is n:
